@@ -320,34 +320,47 @@ class SeparableUf:
 
 
 def _reverse(c, inst):
+    """step(h) then step(-h) returns the start - on ONE integrator object, twice in a row from two different states (the second
+    round trip starts at the time the first one ended: cached slopes of the first must not leak into it), and on fresh objects"""
     if c.symbolic:
-        c.ackermann = False
+        c.ackermann = inst.get("ackermann", True)    # full congruence: a counterexample must be realisable by an actual function T', V'
     cls = _cls(inst["cls"])
     d = inst["dof"]
     n = 2 * d
     kick = [False] * d + [True] * d
     t, h = c.real("t"), c.real("h")
     c.assume(h != 0)
-    integ = _mk(c, cls, n)
     rhs = SeparableUf(c, kick)
-    y0 = c.array([c.real("y%d" % i) for i in range(n)])
-    st, r = run(integ, rhs, t, y0, {}, h)
-    if st != "ok":
-        c.check("c10.step_runs", False, info=repr(r))
-        return
-    _, (dT, dY) = r
-    y1 = y0 + dY
-    integ2 = _mk(c, cls, n)
-    st, r = run(integ2, rhs, t + dT, y1, {}, -h)
-    if st != "ok":
-        c.check("c10.step_runs", False, info=repr(r))
-        return
-    _, (dT2, dY2) = r
-    y2 = y1 + dY2
-    c.case()
-    scale = 1 if c.symbolic else 64 * max(1.0, float(np.max(np.abs(np.asarray(y1, dtype=float)))))
-    c.check("c10.step_h_then_minus_h_returns_start", c.all([c.eq(u, v, scale) for u, v in zip(flat(c, y2), flat(c, y0))]), info=dict(cls=inst["cls"], dof=d))
-    c.check("c10.reverse_time_returns", c.eq(t + dT + dT2, t))
+    shared = _mk(c, cls, n)
+    for trip, tag in enumerate(("y", "z")):
+        y0 = c.array([c.real("%s%d" % (tag, i)) for i in range(n)])
+        for obj_mode in ("shared", "fresh"):
+            fwd = shared if obj_mode == "shared" else _mk(c, cls, n)
+            st, r = run(fwd, rhs, t, y0, {}, h)
+            if st != "ok":
+                c.check("c10.step_runs", False, info=repr(r))
+                return
+            _, (dT, dY) = r
+            y1 = y0 + dY
+            dY = list(flat(c, dY))          # copied: the integrator updates its dState array in place on the next call
+            bwd = shared if obj_mode == "shared" else _mk(c, cls, n)
+            st, r = run(bwd, rhs, t + dT, y1, {}, -h)
+            if st != "ok":
+                c.check("c10.step_runs", False, info=repr(r))
+                return
+            _, (dT2, dY2) = r
+            y2 = y1 + dY2
+            c.case()
+            scale = 1 if c.symbolic else 64 * max(1.0, float(np.max(np.abs(np.asarray(y1, dtype=float)))))
+            c.check("c10.step_h_then_minus_h_returns_start", c.all([c.eq(u, v, scale) for u, v in zip(flat(c, y2), flat(c, y0))]),
+                    info=dict(cls=inst["cls"], dof=d, round_trip=trip, integrator=obj_mode))
+            c.check("c10.reverse_time_returns", c.eq(t + dT + dT2, t))
+            if obj_mode == "shared":
+                ref = _mk(c, cls, n)
+                st, r = run(ref, rhs, t, y0, {}, h)
+                if st == "ok":
+                    c.check("c10.step_map_does_not_depend_on_integrator_history", c.all([c.eq(u, v, scale) for u, v in zip(flat(c, r[1][1]), flat(c, dY))]),
+                            info=dict(cls=inst["cls"], round_trip=trip))
 
 
 def _masks(c, inst):
